@@ -93,7 +93,7 @@ def check_point(pt):
                 for sec, mn, before, after in diffs:
                     v = V("not-a-fixed-point", {"cycle %d equals cycle %d" % (cycle, cycle - 1): [sec, mn, _short(before)]},
                           _short(after), written)
-                    v["sig"] = classify_item(cfg, sec, mn, before, after)
+                    v["sig"] = classify_item(cfg, sec, mn, before, after, cur)
                     vs.append(v)
                 return vs, True, "drift", {}, evals
             return [V("not-a-fixed-point", "cycle %d equals cycle %d" % (cycle, cycle - 1),
@@ -138,7 +138,15 @@ def item_diffs(tag_a, tag_b):
     return out
 
 
-def classify_item(cfg, sec, mn, before, after):
+def _index_of(tag):
+    try:
+        c0 = tag["curves"][0]
+        return list(c0[3]) if c0[0] == "f" else None
+    except Exception:
+        return None
+
+
+def classify_item(cfg, sec, mn, before, after, cur_tag=None):
     """Reason for one drifting item, only for the recorded known findings; anything else is 'other'."""
     if before is None or sec == "<data>" or mn == "<text>":
         return "other:" + sec
@@ -146,7 +154,15 @@ def classify_item(cfg, sec, mn, before, after):
     _, ua, va, da = after
     coarse = cfg.get("fmt") in ("%.2f", "%.0f", "%g", "%.3e") or cfg.get("column_fmt") == "first"
     if sec == "Well" and mn.upper() in ("STRT", "STOP", "STEP") and coarse and (ub, db) == (ua, da):
-        return "strt-stop-step-precision"
+        # exactly the recorded shape: the item BECOMES truthful about the (rounded) data of this cycle
+        idx = _index_of(cur_tag) if cur_tag is not None else None
+        if idx and va[0] == "num":
+            want = {"STRT": idx[0], "STOP": idx[-1], "STEP": (idx[1] - idx[0]) if len(idx) > 1 else None}[mn.upper()]
+            if want is not None and abs(va[1] - want) <= 1e-5 * max(1.0, abs(want)) + 1e-9:
+                return "strt-stop-step-precision"
+            if want is None and mn.upper() == "STEP" and va == ("num", 0.0):
+                return "strt-stop-step-precision"   # single-sample index: no increment, STEP is refreshed to the empty value (written 0)
+        return "other:" + sec
     if len(ub) >= 2 and ((ub[0] == "[" and ub[-1] == "]") or (ub[0] == "(" and ub[-1] == ")")) and ua == ub[1:-1] and (vb, db) == (va, da):
         return "nested-brackets-unit"
     head = ub.split(" ")[0]
